@@ -403,6 +403,14 @@ def evaluate_stream(ctx, cases, results, name="stream"):
     return {k: coq.parse_nat_list(v) for k, v in r.items()}, flat
 
 
+def viol(ctx, kind, what, replay, found=True, cap=3):
+    """report at most `cap` violations of one kind (a broken reader fails on hundreds of cuts)"""
+    cnt = ctx.extra.setdefault("violations_by_kind", {})
+    cnt[kind] = cnt.get(kind, 0) + 1
+    if cnt[kind] <= cap:
+        ctx.violation(what, replay, found)
+
+
 def defect(ctx, key, what, replay):
     """a failure inside one of the exactly delimited classes of reported defects"""
     ctx.extra.setdefault("defect_classes_reproduced", {})
@@ -453,7 +461,7 @@ def verdict_stream(ctx, cases, name="stream"):
             ctx.case(key=("stream", full.hex()[:64], len(full), n), nontrivial=n > 16, tags=tags, size=n,
                      sample=case_json(case, full, n, r[n]) if (len(ctx.samples) < 2 and "in:string-body" in tags) else None)
             if flags:
-                ctx.violation("the stream reader crashed / tripped a sanitizer on a truncated task file (%s)" % "; ".join(flags)[:300],
+                viol(ctx, "stream-crash", "the stream reader crashed / tripped a sanitizer on a truncated task file (%s)" % "; ".join(flags)[:300],
                               {"mode": "stream", "case": case_json(case, full, n, r[n])}, True)
     if res is None:
         return
@@ -626,7 +634,7 @@ def e2e(ctx, objdir):
             else:
                 fs[fname] = files[fname][:n]
             r_ = run_cmds(uft, os.path.join(root, "j-%s-%d" % (fname.replace("/", "_"), n)), fs)
-            if any(v[0] in (124, 137) for v in r_.values()):
+            if any(v[0] in (124, 137, 153) or v[0] < 0 for v in r_.values()):
                 hung.append(job)
             return job, r_
 
@@ -669,10 +677,10 @@ def e2e(ctx, objdir):
                 if "runtime error:" in err and benign_ubsan(err):
                     ctx.tag("e2e:ubsan-nonnull-on-empty-table")
                 if rc == 124 or rc == 137:
-                    ctx.violation("uftrace %s did not terminate within 10 s on a directory whose %s is cut at byte %d" % (c, fname, n), rep, True)
+                    viol(ctx, "e2e-hang", "uftrace %s did not terminate within 10 s on a directory whose %s is cut at byte %d" % (c, fname, n), rep, True)
                     continue
                 if rc < 0 or 128 < rc < 160 or rc == 153:
-                    ctx.violation("uftrace %s was killed by a signal (rc=%d) on a directory whose %s is cut at byte %d" % (c, rc, fname, n), rep, True)
+                    viol(ctx, "e2e-signal", "uftrace %s was killed by a signal (rc=%d) on a directory whose %s is cut at byte %d" % (c, rc, fname, n), rep, True)
                     continue
                 if san:
                     key = None
@@ -683,28 +691,28 @@ def e2e(ctx, objdir):
                     if key:
                         defect(ctx, key, "uftrace %s: sanitizer report with %s cut at byte %d" % (c, fname, n), rep)
                     else:
-                        ctx.violation("uftrace %s: out-of-bounds / undefined access (sanitizer report) on a directory whose %s is %s"
+                        viol(ctx, "e2e-sanitizer:" + fname, "uftrace %s: out-of-bounds / undefined access (sanitizer report) on a directory whose %s is %s"
                                       % (c, fname, "missing" if n < 0 else "cut at byte %d" % n), rep, True)
                     continue
-                if fname == "100.dat" and n > 0 and n not in in_defect and whole[n] != n:
+                if fname == "100.dat" and n > 0 and whole[n] != n:
                     wl = whole[n]
                     ref = canon[wl if wl > 0 else 1][c]
-                    if c == "info" or n not in aborts:
-                        if (rc, out) != (ref[0], ref[1]):
-                            rep["expected_stdout"] = ref[1][-600:]
-                            rep["expected_rc"] = ref[0]
-                            if c in ("report", "graph") and rc == ref[0] == 0 and "in:16-byte-header" in classify_cut(spans, n):
-                                defect(ctx, "partial-header-time", "uftrace %s with the task file cut at byte %d (inside a record "
-                                       "header) prints other totals than on the copy cut at byte %d" % (c, n, wl), rep)
-                                continue
-                            ctx.violation("uftrace %s on a task file cut at byte %d prints something else than on the copy cut at "
-                                          "the last whole record (byte %d)" % (c, n, wl), rep, True)
+                    rep["expected_stdout"] = ref[1][-600:]
+                    rep["expected_rc"] = ref[0]
+                    if (rc, out) == (ref[0], ref[1]):
+                        pass                      # exactly as for the copy cut at the last whole record
+                    elif n in in_defect:
+                        defect(ctx, "partial-args", "uftrace %s with the task file cut at byte %d prints something else than on "
+                               "the copy cut at byte %d" % (c, n, wl), rep)
+                    elif n in aborts and c != "info" and rc != 0 and err.strip() and ref[1].startswith(out):
+                        pass                      # diagnostic exit ("record missing argument info"), nothing extra printed
+                    elif c in ("report", "graph") and rc == ref[0] == 0 and "in:16-byte-header" in classify_cut(spans, n):
+                        defect(ctx, "partial-header-time", "uftrace %s with the task file cut at byte %d (inside a record "
+                               "header) prints other totals than on the copy cut at byte %d" % (c, n, wl), rep)
                     else:
-                        if rc == 0 or not err.strip() or not ref[1].startswith(out):
-                            rep["expected_stdout_prefix_of"] = ref[1][-600:]
-                            ctx.violation("uftrace %s on a task file cut at byte %d (first piece of a payload missing): expected a "
-                                          "diagnostic exit and output that is a prefix of the run on the copy cut at byte %d" % (c, n, wl),
-                                          rep, True)
+                        viol(ctx, "e2e-output:" + c, "uftrace %s on a task file cut at byte %d neither prints what it prints on the "
+                             "copy cut at the last whole record (byte %d) nor stops with a diagnostic and a prefix of that output"
+                             % (c, n, wl), rep)
                 elif fname != "100.dat" and n >= 0 and rc == 0:
                     body = content[40:] if fname == "info" else content
                     if body and not body.endswith(b"\n"):
